@@ -47,6 +47,7 @@ def stopStr : Stop → String
   | .exit c => s!"exit {c}"
   | .encErr n => s!"err {n}"
   | .unspecified => "unspecified"
+  | .inputErr => "inputerr"
 
 /-- text appended to `a` to obtain `b` (outputs only grow) -/
 def delta (a b : List Char) : List Char := b.drop a.length
